@@ -3,6 +3,7 @@ package main
 import (
 	"strings"
 
+	"verifharness/internal/allow"
 	"verifharness/internal/report"
 	"verifharness/internal/rng"
 	"verifharness/internal/routing"
@@ -214,6 +215,24 @@ func init() {
 			}
 		}
 		run.Extra["skipped_tables_F11"] = routing.SkippedBuild
+		return nil
+	}
+}
+
+func init() {
+	checks["C17"] = func(run *report.Run) error {
+		run.Rule = "tables of the fragment both matching engines support (literal and plain-variable segments, literal roots, nested on purpose), every generated URL probed with GET, POST, PUT, PATCH, DELETE, HEAD, OPTIONS, TRACE, FOO on twin containers without and with Container.OPTIONSFilter; Spec.c17Holds on the observation: the Allow set of every 405 and the Allow / Access-Control-Allow-Methods sets of the OPTIONS filter equal the set of methods not answered 404/405, the filter runs no route function and leaves other methods untouched; both routers; non-trivial = some method not answered 404"
+		routingMeta(run)
+		n := sizes(run, 120, 2500)
+		if err := allow.Check(run, "curly", n, 8); err != nil {
+			return err
+		}
+		if err := allow.Check(run, "jsr", n, 8); err != nil {
+			return err
+		}
+		if allow.WitnessF14() {
+			run.KnownHits["F14"]++
+		}
 		return nil
 	}
 }
